@@ -12,6 +12,7 @@ pub mod c09;
 pub mod c10;
 pub mod c11;
 pub mod c12;
+pub mod c13;
 pub mod collcheck;
 
 pub fn dispatch(ctx: &Ctx, replay: Option<&str>) -> i32 {
@@ -28,6 +29,7 @@ pub fn dispatch(ctx: &Ctx, replay: Option<&str>) -> i32 {
         "C10" => c10::run(ctx, replay),
         "C11" => c11::run(ctx, replay),
         "C12" => c12::run(ctx, replay),
+        "C13" => c13::run(ctx, replay),
         _ => {
             eprintln!("no check for property {}", ctx.prop);
             2
